@@ -36,7 +36,7 @@ RECURSIVE Total(_, _)
 Total(runs, i) == IF i > Len(runs) THEN 0 ELSE runs[i][1] + Total(runs, i + 1)
 BinRow == /\ IsEv("binrow")
           /\ Total(Ev.runs, 1) = Ev.count
-          /\ RunsOK(Ev.runs, 1, 0)
+          /\ (RunsOK(Ev.runs, 1, 0)) = TRUE     \* (= TRUE: evaluated as one value under ENABLED, not expanded)
 BinsEv == /\ IsEv("bins")
           /\ {Ev.list[i] : i \in DOMAIN Ev.list} = Reg2Bins(Ev.b, Ev.e, Ev.ms, Ev.d)
           /\ Cardinality({Ev.list[i] : i \in DOMAIN Ev.list}) = Len(Ev.list)       \* no bin listed twice
